@@ -12,7 +12,7 @@ from .. import lean
 from ..impl import Dfit, compiled_df, call, gen_matrix, to_csc, csc_tokens, classify_exc
 from ..proto import fb, vec, mat, decode, same, canon
 
-LEAN_MODULES = ["Skglm.Properties.C06"]
+LEAN_MODULES = ["Skglm.Properties.C06", "Skglm.Properties.Cox"]
 
 ISCALE = dict(logistic=4.0)   # 1/L_0 of doc/tutorials/intercept.md
 
@@ -167,6 +167,8 @@ def run(ctx, rep):
     rep.sample(dict(site=meta[-1][0], input={k: meta[-1][1][k] for k in ("datafit", "X", "y", "w")}))
     from . import c06_ext
     c06_ext.run_all(ctx, rep)
+    from . import moves_common
+    moves_common.run_cox_sweeps(ctx, rep)
 
 
 def replay(ctx, payload):
